@@ -59,6 +59,8 @@ fn main() {
             println!("MISSING (contracts require reachable, no schedule produces): {}", osc::describe(o));
         }
         0
+    } else if args[0] == "--c12-child" {
+        props::c12::child_main(&args[1])
     } else if args[0] == "--list" {
         for p in props::all() {
             println!("{}", p.id);
